@@ -7,7 +7,7 @@
 (* of the whole real store after the call must equal the contract state.   *)
 (* Many traces are concatenated; a "reset" event starts the next one.      *)
 (***************************************************************************)
-EXTENDS Mailstore, Json, TLC, TLCExt, IOUtils
+EXTENDS Mailstore, FileStoreProg, Json, TLC, TLCExt, IOUtils
 
 TraceLog == TLCEval(ndJsonDeserialize(IOEnv.VERIF_TRACE))
 
@@ -137,10 +137,31 @@ TrCrash == /\ Is("crash")
            /\ UNCHANGED svars /\ pre' = pre /\ exp' = exp
            /\ TLCSet(1, l + 1)
 
+(* C11: the file-system mutations the last operation of the file store went through (hook sites, *)
+(* in order) are exactly the program FileStoreProg prescribes for that operation on that mailbox  *)
+(* content: nothing reordered, nothing added, nothing missing.  The target id is the one the      *)
+(* operation named (remove/seen) or was given (add: the id that is new in the mailbox).           *)
+IdsOf(sq) == [i \in DOMAIN sq |-> sq[i].id]
+NewIdIn(m) == CHOOSE i \in (used[m] \ {pre[m][j].id : j \in DOMAIN pre[m]}) : i \notin {pre[m][j].id : j \in DOMAIN pre[m]}
+LastEv == TraceLog[l - 1]
+ExpectedSites ==
+    LET m == Ev.mb
+        cur == IdsOf(pre[m])
+    IN  CASE Ev.op = "add"    -> Sites(AddProgP(cur, LastEv.id, cap, FALSE, FALSE, FALSE))
+          [] Ev.op = "remove" -> IF LastEv.id \in ToSet(cur) THEN Sites(RemoveProgP(cur, LastEv.id, FALSE, FALSE)) ELSE <<>>
+          [] Ev.op = "seen"   -> IF \E j \in DOMAIN pre[m] : pre[m][j].id = LastEv.id /\ ~pre[m][j].seen
+                                 THEN Sites(WriteIndexP(cur, FALSE)) ELSE <<>>
+          [] Ev.op = "purge"  -> Sites(RemoveDirP(FALSE))
+TrSites == /\ Is("sites")
+           /\ LastEv.a = Ev.op
+           /\ Ev.seq = ExpectedSites
+           /\ UNCHANGED svars /\ pre' = pre /\ exp' = exp
+           /\ TLCSet(1, l + 1)
+
 (* C10: every following operation runs in a newly started process *)
 TrRestart == /\ Is("restart") /\ Restart /\ SnapOK(boxes) /\ Mark
 
-TraceNext == \/ TrRestart \/ TrCrash \/ TrEvents \/ TrReset \/ TrAdd \/ TrSeen \/ TrRemove \/ TrPurge \/ TrScan
+TraceNext == \/ TrSites \/ TrRestart \/ TrCrash \/ TrEvents \/ TrReset \/ TrAdd \/ TrSeen \/ TrRemove \/ TrPurge \/ TrScan
              \/ TrGet \/ TrLatest \/ TrList \/ TrVisit \/ TrReopen \/ TrProbe
 
 TraceSpec == TraceInit /\ [][TraceNext]_tvars
